@@ -178,12 +178,15 @@ def _native_search(ctx, mod, o, repo, verif):
         return None
     if not srch:
         return None
-    ok, out = run_native(srch, repo, verif)
-    if ok:
-        for line in out.splitlines():
-            if line.startswith('FAILING-INPUT: '):
-                return (True, json.loads(line[len('FAILING-INPUT: '):]), srch['script'], out)
-    return (False, None, srch['script'], out)
+    last = None
+    for one in (srch if isinstance(srch, list) else [srch]):      # several corpora: the first failing input wins
+        ok, out = run_native(one, repo, verif)
+        if ok:
+            for line in out.splitlines():
+                if line.startswith('FAILING-INPUT: '):
+                    return (True, json.loads(line[len('FAILING-INPUT: '):]), one['script'], out)
+        last = (False, None, one['script'], out)
+    return last
 
 
 def _fname(s):
